@@ -1097,6 +1097,16 @@ func (s *SecureChannel) sendAsyncWithTimeout(
 	}()
 	verifPoint("send.locked", s, "req", reqID, "tok", instance.securityTokenID)
 
+	// A message that fails before its first chunk is written (context already
+	// ended, duplicate request id, encoding error) has not used its sequence
+	// number: give it back so that the numbers on the wire stay consecutive.
+	seqBefore, written := instance.sequenceNumber, 0
+	defer func() {
+		if err != nil && written == 0 {
+			instance.sequenceNumber = seqBefore
+		}
+	}()
+
 	m, err := instance.newRequestMessage(req, reqID, authToken, timeout)
 	if err != nil {
 		return nil, err
@@ -1150,6 +1160,7 @@ func (s *SecureChannel) sendAsyncWithTimeout(
 			return nil, err
 		}
 		s.c.SetWriteDeadline(time.Time{})
+		written++
 
 		atomic.AddUint64(&instance.bytesSent, uint64(n))
 		atomic.AddUint32(&instance.messagesSent, 1)
@@ -1243,8 +1254,13 @@ func (s *SecureChannel) SendMsgWithContext(ctx context.Context, instance *channe
 	instance.Lock()
 	defer instance.Unlock()
 
+	seqBefore := instance.sequenceNumber
 	m := instance.newMessage(resp, typeID, reqID)
-	if _, err := s.writeMessageChunks(ctx, instance, reqID, m, resp); err != nil {
+	if n, err := s.writeMessageChunks(ctx, instance, reqID, m, resp); err != nil {
+		if n == 0 {
+			// nothing was written: the message has not used its sequence number
+			instance.sequenceNumber = seqBefore
+		}
 		return err
 	}
 
@@ -1268,8 +1284,13 @@ func (s *SecureChannel) sendResponseWithContext(ctx context.Context, instance *c
 	defer instance.Unlock()
 	verifPoint("resp.locked", s, "req", reqID, "tok", instance.securityTokenID)
 
+	seqBefore := instance.sequenceNumber
 	m := instance.newMessage(resp, typeID, reqID)
-	if _, err := s.writeMessageChunks(ctx, instance, reqID, m, resp); err != nil {
+	if n, err := s.writeMessageChunks(ctx, instance, reqID, m, resp); err != nil {
+		if n == 0 {
+			// nothing was written: the message has not used its sequence number
+			instance.sequenceNumber = seqBefore
+		}
 		return err
 	}
 
